@@ -531,6 +531,23 @@ class Sym:
                 s.note_calls(st.value.value, leaf)
                 leaf.effects.append(('yield', s.T(st.value.value, leaf) if st.value.value is not None else ('c', None), None, st, len(leaf.conds)))
                 return [leaf]
+            # a conditional expression used as an argument of a call statement is a branch: f(a if c else b)
+            if isinstance(st.value, ast.Call):
+                ife = next((a for a in list(st.value.args) + [k.value for k in st.value.keywords] if isinstance(a, ast.IfExp)), None)
+                if ife is not None:
+                    def repl(node, by):
+                        import copy
+                        new = copy.copy(node)
+                        new.args = [by if a is ife else a for a in node.args]
+                        new.keywords = [ast.keyword(arg=k.arg, value=(by if k.value is ife else k.value)) for k in node.keywords]
+                        return ast.copy_location(ast.Expr(value=ast.copy_location(new, node)), st)
+                    T, F = s.cond_split(ife.test, leaf)
+                    out = []
+                    for q in T:
+                        out += s.stmt(repl(st.value, ife.body), q)
+                    for q in F:
+                        out += s.stmt(repl(st.value, ife.orelse), q)
+                    return out
             s.note_calls(st.value, leaf)
             v = st.value
             # local list literal built by append(): keep its elements (used for small tuples of parameters)
